@@ -590,7 +590,8 @@ func missingKey(c *an.Ctx, r *runnerRoles, cc *ssa.Function, rule string) {
 				return
 			}
 			seen[v] = true
-			for _, src := range an.Sources(v) {
+			// (a template prepared by a helper of pkg/utils is followed into the helper)
+			for _, src := range p.DeepSources(v, 3, false) {
 				switch x := src.(type) {
 				case *ssa.Extract:
 					walk(x.Tuple)
